@@ -331,7 +331,53 @@ func templateForms() []form {
 	for _, op := range assignOps {
 		f = append(f, tf("assign", "assign"+op, "{% n "+op+" 2 %}"))
 	}
+	for _, t := range typeExprs {
+		f = append(f, tf("typeexpr", "var "+t, "{% var v "+t+" %}"), tf("typeexpr", "literal "+t, "{% v := "+t+"{} %}"), tf("typeexpr", "convert "+t, "{{ ("+t+")(n) }}"),
+			tf("typeexpr", "assert "+t, "{% v, ok := x.("+t+") %}"), tf("typeexpr", "new "+t, "{% v := new("+t+") %}"), tf("typeexpr", "make "+t, "{% v := make("+t+", 1) %}"),
+			tf("typeexpr", "param "+t, "{% macro A(p "+t+") %}{% end macro %}"), tf("typeexpr", "func-param "+t, "{% f := func(p "+t+") ("+t+") { return p } %}"),
+			tf("typeexpr", "type "+t, "{% type U "+t+" %}"), tf("typeexpr", "case "+t, "{% switch x.(type) %}{% case "+t+" %}{% end %}"))
+	}
+	for _, e := range exprs {
+		f = append(f, tf("exprs", "show "+e, "{{ "+e+" }}"), tf("exprs", "short "+e, "{% v := "+e+" %}"), tf("exprs", "if "+e, "{% if "+e+" %}{% end %}"),
+			tf("exprs", "arg "+e, "{{ P("+e+") }}"), tf("exprs", "index "+e, "{{ s["+e+"] }}"), tf("exprs", "stmt "+e, "{% "+e+" %}"),
+			tf("exprs", "var "+e, "{% var v = "+e+" %}"), tf("exprs", "const "+e, "{% const c = "+e+" %}"), tf("exprs", "case "+e, "{% switch n %}{% case "+e+" %}{% end %}"),
+			tf("exprs", "range "+e, "{% for v in "+e+" %}{% end %}"), tf("exprs", "using "+e, "{% var v = "+e+"; using %}{% end using %}"))
+	}
 	return f
+}
+
+// type expressions, well-formed and not, put into every position that takes a type
+var typeExprs = []string{
+	"int", "[]int", "[3]int", "[n]int", "[-1]int", "[1.5]int", "[\"a\"]int", "[...]int", "[]", "[3]", "[", "map[string]int", "map[]int", "map[int]",
+	"map[]", "map", "map[[]int]int", "map[func()]int", "map[string]map[string][]*int", "chan int", "<-chan int", "chan<- int", "chan", "<-chan",
+	"chan chan<- int", "*int", "*", "**int", "*(int)", "(int)", "[](int)", "[]()", "func()", "func(int) string", "func(a, b int, c ...string) (int, error)",
+	"func", "func(", "func()()", "func(...)", "func(...int)", "func(a ...int, b int)", "func(int, b string)", "func() (a, b)", "func(a int) (a int)",
+	"struct{}", "struct{ A int }", "struct{ A, B int; C string }", "struct", "struct{ A }", "struct{ A, B }", "struct{ A int; A string }",
+	"struct{ int; int }", "struct{ *T }", "struct{ A int `t` }", "struct{ A int \"t\" }", "struct{ A int 1 }", "interface{}", "interface{ F() }",
+	"interface{ int }", "interface{ F(); F() }", "interface", "any", "error", "html", "T", "T.U", "p.T", "str.T", "n", "M", "nil", "true", "iota",
+	"int{}", "[]T", "[2][2]int", "[len(s)]int", "[len(\"ab\")]int", "[2]struct{ a [2]int }", "func() func() func()", "macro()", "macro(a int) html",
+}
+
+// expressions, well-formed and not
+var exprs = []string{
+	"n", "-n", "+n", "!a", "^n", "&n", "*&n", "<-ch", "&", "*", "<-", "!", "n +", "n + str", "n / 0", "1 / 0", "1 % 0", "1.5 % 2", "n << -1", "1 << n", "\"a\" << 1",
+	"s[0]", "s[", "s[]", "s[:]", "s[1:]", "s[:1]", "s[1:2:3]", "s[::]", "s[:1:]", "s[1::2]", "s[-1]", "s[5]", "str[0]", "str[1:2:3]", "s[\"a\"]", "s[1.0]", "s[a]",
+	"x.(int)", "x.(", "x.()", "x.(type)", "n.(int)", "x.(T)", "x.f", "x.", "n.f", "str.len", "p.F", "M.x", "s.len()",
+	"[]int{1, 2}", "[]int{1, 2,}", "[]int{", "[]int{0: 1, 0: 2}", "[]int{-1: 1}", "[]int{n: 1}", "[...]int{1, 2}", "[2]int{1, 2, 3}", "map[string]int{\"a\": 1}",
+	"map[string]int{\"a\": 1, \"a\": 2}", "map[string]int{1}", "struct{ A int }{1}", "struct{ A int }{A: 1}", "struct{ A int }{B: 1}", "struct{ A int }{A: 1, 2}",
+	"struct{ A int }{1, 2}", "[]struct{ A int }{{1}, {A: 2}}", "[][]int{{1}, {2, 3}}", "map[string][]int{\"a\": {1}}", "[]*int{{}}", "T{}", "int{}", "&[]int{1}", "&struct{}{}",
+	"func() {}", "func() int { return 1 }()", "func(a ...int) {}(s...)", "func(a ...int) {}(1, s...)", "func() {", "func(", "func() int {}", "func() { return 1 }",
+	"len(s)", "len()", "len(s, s)", "len(n)", "cap(ch)", "append(s, 1)", "append(s, s...)", "append()", "append(n)", "copy(s, s)", "copy(s)", "delete(s, 1)", "make([]int, 1)",
+	"make([]int)", "make(int)", "make([]int, -1)", "make([]int, 2, 1)", "make(chan int, n)", "make(map[string]int, 1)", "make()", "new(int)", "new()", "new(n)", "new(T)",
+	"panic(1)", "panic()", "recover()", "print(n)", "println()", "close(ch)", "close(n)", "min(1, 2)", "max(n)", "clear(s)", "complex(1, 2)", "real(1i)", "imag(n)",
+	"int(n)", "int(str)", "string(n)", "[]byte(str)", "[]int(s)", "int()", "int(1, 2)", "float64(1) / 0", "uint8(256)", "int8(-129)", "string(s)", "(int)(n)", "(*int)(nil)",
+	"func()(nil)", "interface{}(n)", "html(str)", "html(n)", "js(\"a\")", "css(str) + css(str)", "markdown(html(str))",
+	"M", "M()", "M(1)", "P()", "P(1, 2)", "P(str)", "P(s...)", "M()()", "P(1)(2)", "P(P(1))", "Undef()", "undef", "_", "nil", "nil == nil", "iota", "true && n", "a == n",
+	"s == s", "x == x", "x == 1", "x == s", "ch == nil", "M == nil", "M == M", "str + \"a\"", "str + 1", "str * 2", "\"a\" + 'b'", "'a' + 1", "1 + 1.5", "1i * 1i", "0x", "1e", "1_", "08",
+	"'ab'", "''", "\"\\q\"", "`a", "\"a", "1..2", "a ? n : n", "n++", "n = 1", "n := 1", "a, b", "(a, b)", "()", "(", ")", "(((n)))", "-(-(-n))", "!!a", "a and b", "a or not b", "not",
+	"and a", "a and", "s contains 1", "str contains \"a\"", "s contains", "contains s", "s not contains 1", "not s contains 1", "n contains 1", "s contains str",
+	"render \"p.html\"", "render", "render n", "render \"p.html\" default", "M() default", "default 1", "a default b default n", "itea", "itea()", "$n", "n.(type)", "...", "s...",
+	"<-ch + 1", "ch <- 1", "<-<-ch", "&M", "&M()", "&1", "&nil", "*n", "*nil", "-str", "!n", "^a", "<-n", "<-s", "n.n.n", "s[0][0]", "s[0].f", "s[0]()", "n()", "str()", "1()", "nil()",
 }
 
 func goForms() []form {
@@ -481,10 +527,36 @@ func goForms() []form {
 	for _, op := range assignOps {
 		f = append(f, gf("assign", "assign"+op, "n "+op+" 2"))
 	}
+	for _, t := range typeExprs {
+		f = append(f, gf("typeexpr", "var "+t, "var v "+t+"; _ = v"), gf("typeexpr", "literal "+t, "_ = "+t+"{}"), gf("typeexpr", "convert "+t, "_ = ("+t+")(n)"),
+			gf("typeexpr", "assert "+t, "_, _ = x.("+t+")"), gf("typeexpr", "new "+t, "_ = new("+t+")"), gf("typeexpr", "make "+t, "_ = make("+t+", 1)"),
+			gf("typeexpr", "func-param "+t, "_ = func(p "+t+") ("+t+") { return p }"), gf("typeexpr", "type "+t, "type U "+t),
+			gf("typeexpr", "case "+t, "switch x.(type) {\ncase "+t+":\n}"))
+	}
+	for _, e := range exprs {
+		f = append(f, gf("exprs", "assign "+e, "_ = "+e), gf("exprs", "short "+e, "v := "+e+"; _ = v"), gf("exprs", "if "+e, "if "+e+" {\n}"),
+			gf("exprs", "arg "+e, "_ = P("+e+")"), gf("exprs", "index "+e, "_ = s["+e+"]"), gf("exprs", "stmt "+e, e), gf("exprs", "const "+e, "const c = "+e),
+			gf("exprs", "case "+e, "switch n {\ncase "+e+":\n}"), gf("exprs", "range "+e, "for range "+e+" {\n}"), gf("exprs", "return "+e, "return "+e),
+			gf("exprs", "defer "+e, "defer "+e), gf("exprs", "send "+e, "ch <- "+e))
+	}
 	return f
 }
 
 func declForms() []form {
+	f := declFormsBase()
+	for _, t := range typeExprs {
+		f = append(f, df("typeexpr", "var "+t, "var v "+t), df("typeexpr", "type "+t, "type U "+t), df("typeexpr", "alias "+t, "type U = "+t),
+			df("typeexpr", "param "+t, "func g(p "+t+") ("+t+") { return p }"), df("typeexpr", "receiver "+t, "func (r "+t+") g() {}"),
+			df("typeexpr", "field "+t, "type U struct { f "+t+" }"), df("typeexpr", "var-literal "+t, "var v = "+t+"{}"))
+	}
+	for _, e := range exprs {
+		f = append(f, df("exprs", "var "+e, "var v = "+e), df("exprs", "const "+e, "const c = "+e), df("exprs", "typed-var "+e, "var v int = "+e),
+			df("exprs", "array-len "+e, "var v ["+e+"]int"))
+	}
+	return f
+}
+
+func declFormsBase() []form {
 	return []form{
 		df("var", "var", "var v = 1"),
 		df("var", "var-multi", "var v, w = 1, 2"),
@@ -670,7 +742,7 @@ type subject struct {
 	src       string
 	form, mod string
 	cat       string
-	level     int // 0: every role; 1: the core roles and one more role in turn; 2: one role in turn
+	level     int // 0: every role; 1: the core roles and one more role in turn; 2: one role in turn; 3: two roles in turn
 }
 
 // modify gives the form with each modifier. all (thorough tier) adds the variants that the quick tier leaves out.
@@ -689,6 +761,20 @@ func modify(f form, all bool) []subject {
 	endUsing := "{% end using %}"
 	if f.syn != 't' {
 		endUsing = "end using"
+	}
+	if f.cat == "typeexpr" || f.cat == "exprs" { // many forms: unmodified in the core roles, cut short in one role in turn
+		add("plain", 3, join(f.pieces))
+		toks := Tokens([]byte(f.pieces[0]))
+		depth := 3
+		if all {
+			depth = 7
+		}
+		for k := len(toks) - 1; k >= 1 && k >= len(toks)-depth; k-- {
+			if t := toks[k-1]; len(t) > 0 && t[0] != ' ' && t[0] != '\n' {
+				add("truncated", 2, string(bytesJoin(toks[:k])))
+			}
+		}
+		return out
 	}
 	add("plain", 0, join(f.pieces))
 	// `; using` at the end of every piece
@@ -1100,7 +1186,7 @@ func Forms(r *proto.Rand, quick bool, nRandom int) []FormCase {
 			out = append(out, FormCase{BuildCase: b, Form: s.cat + ":" + s.form, Mod: s.mod + "+AllowGoStmt", Role: ro.name})
 		}
 	}
-	turn := 0
+	turn := r.Intn(1 << 16) // which role a form in turn goes to depends on the seed
 	place := func(s subject, syn byte) {
 		rs := rolesBySyn[syn]
 		level := s.level
@@ -1108,6 +1194,14 @@ func Forms(r *proto.Rand, quick bool, nRandom int) []FormCase {
 			level = 0
 		}
 		turn++
+		if level == 3 { // the bulk forms (type expressions, expressions)
+			level = 2
+			if all {
+				level = 1
+			} else {
+				emit(s, rs[(turn+len(rs)/2)%len(rs)])
+			}
+		}
 		if all && level == 2 && s.mod != "nested" { // thorough: two roles in turn
 			emit(s, rs[(turn+len(rs)/2)%len(rs)])
 		}
@@ -1141,6 +1235,15 @@ func Forms(r *proto.Rand, quick bool, nRandom int) []FormCase {
 		inner := forms
 		if syn == 'd' {
 			inner = append(append([]form(nil), forms...), bySyn['g']...) // declarations and statements inside function bodies
+		}
+		if !quick { // the bulk forms: one in eight, chosen by the seed
+			var in2 []form
+			for _, f := range inner {
+				if (f.cat != "typeexpr" && f.cat != "exprs") || r.Intn(8) == 0 {
+					in2 = append(in2, f)
+				}
+			}
+			inner = in2
 		}
 		if quick { // one form of each category, chosen by the seed
 			byCat := map[string][]form{}
